@@ -44,13 +44,41 @@ def fields_of(ty):
 
 
 def int_class(ty):
-    """which integer encoding write_number/read_number select from the constraint constants"""
-    lo, hi = opt(ty[1]), opt(ty[2])
+    """which integer encoding write_number/read_number select from the constraint constants: the sign
+    from MIN, 32 bits only for a non-extensible constraint whose bounds fit (MIN/MAX bound the root
+    only; since the repair of F-proto-int-ext an extensible INTEGER takes the 64-bit encoding of its
+    64-bit Rust type).  Used for the histogram only, never as an oracle."""
+    lo, hi, ext = opt(ty[1]), opt(ty[2]), ty[3] == "1"
     if (lo if lo is not None else 0) >= 0:
-        return "u32" if (hi if hi is not None else I64_MAX) <= 0xFFFFFFFF else "u64"
-    if (lo if lo is not None else I64_MIN) >= -(1 << 31) and (hi if hi is not None else I64_MAX) <= (1 << 31) - 1:
+        return "u32" if not ext and (hi if hi is not None else I64_MAX) <= 0xFFFFFFFF else "u64"
+    if not ext and (lo if lo is not None else I64_MIN) >= -(1 << 31) and (hi if hi is not None else I64_MAX) <= (1 << 31) - 1:
         return "s32"
     return "s64"
+
+
+def int_regions(ty, val):
+    """histogram labels of the INTEGER regions a well-typed value exercises (regression corpus of the
+    repaired findings F-proto-int-ext / F-proto-int-ext-width): `xout` = an extensible INTEGER holds a
+    value outside its root, `x32` = ... one that does not fit 32 bits (was cut by `as u32`/`as i32`),
+    `x30` = an extensible INTEGER with a negative lower bound holds 2^30 <= |v| (where the 32-bit
+    zig-zag value was sign-extended to ten octets)"""
+    out = set()
+
+    def visit(t, v, parent):
+        if t[0] != "int" or t[3] != "1" or v[0] != "int":
+            return
+        x = int(v[1])
+        lo, hi = opt(t[1]), opt(t[2])
+        signed = (lo if lo is not None else 0) < 0
+        u = x if signed else x & M64
+        if (lo is not None and u < lo) or (hi is not None and u > hi):
+            out.add("xout")
+        if not (-(1 << 31) <= x < (1 << 31) if signed else 0 <= u <= 0xFFFFFFFF):
+            out.add("x32")
+        if signed and not -(1 << 30) <= x < (1 << 30):
+            out.add("x30")
+    pair_walk(ty, val, visit)
+    return sorted(out)
 
 
 def rust_range(ty):
@@ -155,14 +183,9 @@ def rt_classes(ty, val):
     out = []
 
     def visit(t, v, parent):
-        if t[0] == "int":
-            x = int(v[1])
-            c = int_class(t)
-            w, signed = int(t[4]), t[5] == "1"
-            if c == "u32" and w > 32 and not 0 <= (x & M64) <= 0xFFFFFFFF:
-                out.append("proto.int_ext_truncated")
-            if c == "s32" and w > 32 and not -(1 << 31) <= x < (1 << 31):
-                out.append("proto.int_ext_truncated")
+        # (an extensible INTEGER outside its root was the class proto.int_ext_truncated until the
+        # repair of F-proto-int-ext: no class any more, a recurrence is a violation; `int_regions`
+        # shows in the histogram that the former witnesses are still in the stream)
         if t[0] == "choice":
             i = int(v[1])
             if i < len(t) - 4 and writes_nothing(t[4 + i], v[2]):
@@ -239,6 +262,12 @@ def extreme(ty, mode):
             x = -1 if (signed or w == 64) else hi
         elif mode == "i64max":
             x = min(hi, I64_MAX)
+        elif mode == "p30":
+            x = min(hi, 1 << 30)                          # first value whose 32-bit zig-zag form has bit 31 set
+        elif mode == "n30":
+            x = max(lo if (signed or w == 64) else 0, -(1 << 30) - 1)
+        elif mode == "p32":
+            x = min(hi, (1 << 32) + 5)                    # was cut to 5 by `as u32`
         else:
             x = 0
         return ["int", str(x)]
@@ -268,7 +297,8 @@ def extreme(ty, mode):
     raise ValueError(h)
 
 
-MODES = ["zero", "somezero", "tmin", "tmax", "minus1", "i64max"]
+# p30 / n30 / p32: the former witnesses of F-proto-int-ext(-width), kept as regression corpus
+MODES = ["zero", "somezero", "tmin", "tmax", "minus1", "i64max", "p30", "n30", "p32"]
 
 
 # ---------------------------------------------------------------------------------- wire helpers
@@ -517,6 +547,14 @@ class ProtoBase(runner.Stream):
             extra = ":" + a[1]
         elif a[0] == "ok" and len(a) > 2 and (a[2].startswith("readerr") or a[2] == "readpanic"):
             extra = ":" + a[2]
+        if op in ("rt", "enc"):
+            try:
+                items = self.req_items(req)
+                reg = int_regions(uperlib.parse_sx(items[0]), uperlib.parse_sx(items[1]))
+            except (IndexError, ValueError):
+                reg = []
+            if reg:
+                extra += ":int-" + "+".join(reg)
         return f"{op}:{mod}:{a[0]}{extra}"
 
     def nontrivial(self, req, ans):
@@ -1599,14 +1637,8 @@ class SchemaAgree(ProtoBase):
                         out.append("proto.null_field_number")
                     if ft[0] == "null":
                         seen_null = True
-            if t[0] == "int":
-                c = int_class(t)
-                w = int(t[4])
-                x = int(v[1])
-                if w > 32 and c == "u32" and not 0 <= (x & M64) <= 0xFFFFFFFF:
-                    out.append("proto.int_ext_width")
-                if w > 32 and c == "s32" and not -(1 << 30) <= x < (1 << 30):
-                    out.append("proto.int_ext_width")
+            # (proto.int_ext_width — extensible INTEGER written in the 32-bit encoding of its root
+            # under a 64-bit schema type — is repaired: no class, a recurrence is a violation)
             if t[0] == "seqof" and t[4][0] == "seqof":
                 out.append("proto.schema_repeated_repeated")
             if t[0] == "choice" and any(a[0] == "seqof" for a in t[4:]):
